@@ -149,6 +149,14 @@ class Exec(X.PyExec):
                     return v.v.__name__
             return None
 
+        if isinstance(op, (ast.In, ast.NotIn)) and isinstance(b, Ref) and st.objs[b.oid]["cls"] == "$counter":
+            if st.objs[b.oid]["fields"].get("$unknown"):
+                return Sym(z3.Bool(X.uid("in_counter")), "bool")  # arbitrary contents: both outcomes
+            if not (isinstance(a, Sym) and a.dtype == "bytes"):
+                raise Unsupported("membership of a non-bytes value")
+            ent = st.objs[b.oid]["fields"]["$entries"]
+            t = z3.Or(*[a.t == k for k, v in ent]) if ent else z3.BoolVal(False)
+            return Sym(z3.simplify(t if isinstance(op, ast.In) else z3.Not(t)), "bool")
         if isinstance(op, (ast.In, ast.NotIn)) and isinstance(b, Ref) and st.objs[b.oid]["cls"] == "$set":
             if not (isinstance(a, Sym) and a.dtype == "bytes"):
                 raise Unsupported("membership of a non-bytes value")
@@ -225,6 +233,11 @@ def counter_lookup(entries, key_t):
 def _counter_getitem(ex, st, ref, idx):
     if not (isinstance(idx, Sym) and idx.dtype == "bytes"):
         raise Unsupported("Counter lookup with a non-bytes key")
+    if st.objs[ref.oid]["fields"].get("$unknown"):
+        # a Counter left behind by earlier operations: its value at the key is arbitrary (>= 0)
+        t = z3.Int(X.uid("counter_value"))
+        st.pc.append(t >= 0)
+        return [("val", Sym(t, "int"), st)]
     ent = st.objs[ref.oid]["fields"]["$entries"]
     return [("val", Sym(z3.simplify(counter_lookup(ent, idx.t)), "int"), st)]
 
